@@ -121,6 +121,8 @@ class Tr:
         s, rest = body[0], body[1:]
         if isinstance(s, ast.Expr) and isinstance(s.value, ast.Constant) and isinstance(s.value.value, str):
             return self.stmts(rest, state, loopvar)
+        if isinstance(s, ast.Expr) and isinstance(s.value, ast.Call) and ast.unparse(s.value.func).split(".")[0] in ("LOGGER", "_LOGGER"):
+            return self.stmts(rest, state, loopvar)
         if isinstance(s, ast.Raise):
             return "None"
         if isinstance(s, ast.Continue):
@@ -391,8 +393,31 @@ else:
     raise ParsingError(f'Could not determine frame type: {{data!r}}')"""
 
 
+class _StripLogs(ast.NodeTransformer):
+    """log calls and docstrings carry no behaviour the models speak of: a pinned comparison ignores them"""
+
+    def _clean(self, body):
+        out = []
+        for s in body:
+            if isinstance(s, ast.Expr) and isinstance(s.value, ast.Constant) and isinstance(s.value.value, str):
+                continue
+            if isinstance(s, ast.Expr) and isinstance(s.value, ast.Call) and ast.unparse(s.value.func).split(".")[0] in ("LOGGER", "_LOGGER"):
+                continue
+            out.append(s)
+        return out or [ast.Pass()]
+
+    def generic_visit(self, node):
+        super().generic_visit(node)
+        for f in ("body", "orelse", "finalbody"):
+            v = getattr(node, f, None)
+            if isinstance(v, list) and v and isinstance(v[0], ast.stmt):
+                setattr(node, f, self._clean(v) if f == "body" else [x for x in self._clean(v) if not isinstance(x, ast.Pass)] )
+        return node
+
+
 def _dump(src: str) -> str:
-    return ast.dump(ast.parse(textwrap.dedent(src)))
+    tree = ast.parse(textwrap.dedent(src))
+    return ast.dump(_StripLogs().visit(tree))
 
 
 def _norm_body(fn) -> str:
